@@ -604,6 +604,14 @@ func (st *state) script(no int, topic string, msgs []*message.Message) error {
 	st.mu.Unlock()
 	switch beh {
 	case "error":
+		// the error value must not matter: plain, context.Canceled and a wrapper of it (the Router treats
+		// context.Canceled specially when it logs handler errors)
+		switch no % 3 {
+		case 1:
+			return context.Canceled
+		case 2:
+			return fmt.Errorf("c02: scripted publish failure: %w", context.Canceled)
+		}
 		return errScriptedPublish
 	case "panic-str":
 		panic("c02: scripted publisher panic")
